@@ -7,6 +7,7 @@ import (
 	"strings"
 	"unicode/utf8"
 
+	"google.golang.org/protobuf/encoding/protowire"
 	"google.golang.org/protobuf/proto"
 	"google.golang.org/protobuf/reflect/protoreflect"
 	"google.golang.org/protobuf/reflect/protoregistry"
@@ -199,10 +200,12 @@ func altHistory(v *V, r *rng) *V {
 }
 
 type codecCtx struct {
-	o   *out
-	si  *schemaInfo
-	r   *rng
-	cfg config
+	o      *out
+	si     *schemaInfo
+	r      *rng
+	cfg    config
+	snapc  *concCtx // deep struct snapshots (pointer / nil / slice-header granularity), shared with the conc engine
+	bigSeq int      // running number of the candidates at the 2->3 byte length-prefix boundary (quick: every 29th is run)
 }
 
 func (c *codecCtx) one(mi *msgInfo, v *V, class string) {
@@ -212,6 +215,7 @@ func (c *codecCtx) one(mi *msgInfo, v *V, class string) {
 	p := si.toGo(mi, v).Interface().(proto.Message)
 	before := si.fromGo(mi, reflect.ValueOf(p)).String()
 	o.prop("C07", before == val, "building the struct and reading it back differ (harness self-check): "+val+" vs "+before)
+	c.readonly(mi, v)
 
 	det := catchMarshal(proto.MarshalOptions{Deterministic: true}, p)
 	nondet := catchMarshal(proto.MarshalOptions{}, p)
@@ -221,7 +225,14 @@ func (c *codecCtx) one(mi *msgInfo, v *V, class string) {
 	if szPan != nil || szDetPan != nil {
 		sizeObs = "panic"
 	}
-	o.kase("ENC", args, det.String()+" size="+sizeObs)
+	// lists of thousands of elements: the decoder model is quadratic in the list length (it appends element by element, as
+	// the code does): marshal and size models only (ENCB), no decode lines; every predicate below is evaluated all the same
+	huge := maxListLen(v) > hugeList
+	if huge {
+		o.kase("ENCB", args, det.String()+" size="+sizeObs)
+	} else {
+		o.kase("ENC", args, det.String()+" size="+sizeObs)
+	}
 	if maxMapLen(v) <= 1 {
 		o.kase("ENCN", args, nondet.String())
 	}
@@ -280,6 +291,37 @@ func (c *codecCtx) one(mi *msgInfo, v *V, class string) {
 		if ref.err == nil && ref.pan == nil {
 			o.withKey(key).prop("C02", bytes.Equal(ref.b, det.b), fmt.Sprintf("%s %s: deterministic bytes %s, reference %s", id, val, hx(det.b), hx(ref.b)))
 			o.withKey(key).prop("C04", proto.Size(d) == sz, fmt.Sprintf("%s %s: Size=%d reference size=%d", id, val, sz, proto.Size(d)))
+			// C02: the generated Marshal method called directly (the entry point the proto package itself uses) with every flag
+			// combination that asks for deterministic output: the flag alone, and together with UseCachedSize after a Size call
+			// (what proto.MarshalOptions.Marshal does). Each must give the reference's deterministic bytes.
+			if m := p.ProtoReflect().ProtoMethods(); m != nil && m.Marshal != nil {
+				for _, fc := range []struct {
+					name      string
+					flags     protoiface.MarshalInputFlags
+					sizeFirst bool
+				}{
+					{"Flags=MarshalDeterministic", protoiface.MarshalDeterministic, false},
+					{"Flags=MarshalDeterministic|MarshalUseCachedSize after a Size call", protoiface.MarshalDeterministic | protoiface.MarshalUseCachedSize, true},
+					{"Flags=MarshalDeterministic after a Size call", protoiface.MarshalDeterministic, true},
+				} {
+					var got mres
+					func() {
+						defer func() {
+							if e := recover(); e != nil {
+								got.pan = e
+							}
+						}()
+						if fc.sizeFirst && m.Size != nil {
+							m.Size(protoiface.SizeInput{Message: p.ProtoReflect(), Flags: protoiface.MarshalDeterministic})
+						}
+						mo, err := m.Marshal(protoiface.MarshalInput{Message: p.ProtoReflect(), Flags: fc.flags})
+						got = mres{b: mo.Buf, err: err}
+					}()
+					o.withKey(key).prop("C02", got.err == nil && got.pan == nil && bytes.Equal(got.b, ref.b),
+						fmt.Sprintf("%s %s: ProtoReflect().ProtoMethods().Marshal with %s gives %s (err %v, panic %v), the reference's deterministic encoding is %s", id, val, fc.name, hx(got.b), got.err, got.pan, hx(ref.b)))
+				}
+				o.count("c02_direct_method_calls")
+			}
 		} else {
 			o.count("ref_marshal_rejects")
 		}
@@ -345,7 +387,32 @@ func (c *codecCtx) one(mi *msgInfo, v *V, class string) {
 	}
 
 	// model correspondence for decode on the canonical encoding
-	c.decCase(mi, det.b, false, false, nil)
+	if !huge {
+		c.decCase(mi, det.b, false, false, nil)
+	}
+}
+
+const hugeList = 600
+
+func maxListLen(v *V) int {
+	m := 0
+	if v == nil {
+		return 0
+	}
+	if v.K == 'l' {
+		m = len(v.L)
+	}
+	for _, e := range v.L {
+		if k := maxListLen(e); k > m {
+			m = k
+		}
+	}
+	if v.P != nil {
+		if k := maxListLen(v.P); k > m {
+			m = k
+		}
+	}
+	return m
 }
 
 func shapeKey(v *V) string {
@@ -453,7 +520,10 @@ func engineCodec(cfg config, o *out) {
 	o.hist["programs"] = len(schemas)
 	for _, si := range schemas {
 		o.raw("SCHEMA\t" + si.id + "\t=\t" + si.sexp())
-		c := &codecCtx{o: o, si: si, r: newRng(cfg.seed, "codec/"+si.id), cfg: cfg}
+		c := &codecCtx{o: o, si: si, r: newRng(cfg.seed, "codec/"+si.id), cfg: cfg, snapc: &concCtx{pulsar: map[reflect.Type]bool{}}}
+		for _, m := range si.msgs {
+			c.snapc.pulsar[m.goType] = m.pulsar
+		}
 		g := &vgen{r: c.r, si: si, nilElems: true}
 		for _, mi := range si.roots() {
 			// empty message
@@ -516,6 +586,14 @@ func engineCodec(cfg config, o *out) {
 				c.one(mi, v, "random")
 			}
 		}
+		// deterministic sweeps (after the random stream, which they do not disturb): states only hand-written code produces,
+		// and payload lengths / element counts at the boundaries where a length prefix grows by a byte
+		for _, mi := range si.roots() {
+			for _, v := range c.handBuilt(mi, g) {
+				c.one(mi, v, "handbuilt")
+			}
+			c.widthSweep(mi, g)
+		}
 	}
 }
 
@@ -566,4 +644,540 @@ func hasF32SNaN(si *schemaInfo, mi *msgInfo, v *V) bool {
 		}
 	}
 	return found
+}
+
+// ---- C07: read-only calls leave the Go struct unchanged ---------------------------------------------------------
+// The struct is snapshotted (every field, unexported ones included; pointers, nil-ness, slice headers and map identities are
+// part of the snapshot) before and after EACH read-only call; the message is built through package reflect and may be in a
+// state only hand-written code produces (oneof wrapper holding a nil message, nil list elements / map values, empty non-nil
+// containers). A second, separately built message of the same value is the other operand of Equal.
+
+func walkPR(m protoreflect.Message, depth int) {
+	if depth > 12 {
+		return
+	}
+	m.Range(func(fd protoreflect.FieldDescriptor, val protoreflect.Value) bool {
+		switch {
+		case fd.IsMap():
+			val.Map().Range(func(_ protoreflect.MapKey, v protoreflect.Value) bool {
+				if fd.MapValue().Message() != nil {
+					walkPR(v.Message(), depth+1)
+				}
+				return true
+			})
+		case fd.IsList():
+			l := val.List()
+			for i := 0; i < l.Len(); i++ {
+				if e := l.Get(i); fd.Message() != nil {
+					walkPR(e.Message(), depth+1)
+				}
+			}
+		case fd.Message() != nil:
+			walkPR(val.Message(), depth+1)
+		}
+		return true
+	})
+	m.GetUnknown()
+}
+
+// touchValue uses a value handed out by Get through its read-only methods
+func touchValue(fd protoreflect.FieldDescriptor, val protoreflect.Value) {
+	switch {
+	case fd.IsMap():
+		mp := val.Map()
+		mp.IsValid()
+		mp.Len()
+		mp.Range(func(k protoreflect.MapKey, v protoreflect.Value) bool {
+			mp.Has(k)
+			if g := mp.Get(k); fd.MapValue().Message() != nil {
+				g.Message().IsValid()
+				v.Message().IsValid()
+			}
+			return true
+		})
+	case fd.IsList():
+		l := val.List()
+		l.IsValid()
+		for i := 0; i < l.Len(); i++ {
+			if e := l.Get(i); fd.Message() != nil {
+				e.Message().IsValid()
+			}
+		}
+	case fd.Message() != nil:
+		val.Message().IsValid()
+		val.Message().Descriptor()
+	default:
+		val.Interface()
+	}
+}
+
+type roCall struct {
+	name string
+	f    func()
+}
+
+func (c *codecCtx) readonlyCalls(mi *msgInfo, v *V, p, clone proto.Message, valid bool) []roCall {
+	si := c.si
+	fields := mi.md.Fields()
+	oneofs := mi.md.Oneofs()
+	methods := p.ProtoReflect().ProtoMethods()
+	calls := []roCall{
+		{"Size", func() { proto.Size(p) }},
+		{"Size-deterministic", func() { proto.MarshalOptions{Deterministic: true}.Size(p) }},
+		{"Marshal", func() { proto.Marshal(p) }},
+		{"Marshal-deterministic", func() { proto.MarshalOptions{Deterministic: true}.Marshal(p) }},
+		{"MarshalAppend", func() { proto.MarshalOptions{}.MarshalAppend(make([]byte, 3, 64), p) }},
+		{"MarshalAppend-deterministic", func() { proto.MarshalOptions{Deterministic: true}.MarshalAppend([]byte{}, p) }},
+		{"Equal(x,clone)", func() { proto.Equal(p, clone) }},
+		{"Equal(clone,x)", func() { proto.Equal(clone, p) }},
+		{"Equal(x,x)", func() { proto.Equal(p, p) }},
+		{"Range", func() {
+			p.ProtoReflect().Range(func(protoreflect.FieldDescriptor, protoreflect.Value) bool { return true })
+		}},
+		{"Range-stopped-early", func() {
+			p.ProtoReflect().Range(func(protoreflect.FieldDescriptor, protoreflect.Value) bool { return false })
+		}},
+		{"Range-nested", func() { walkPR(p.ProtoReflect(), 0) }},
+		{"Has", func() {
+			r := p.ProtoReflect()
+			for i := 0; i < fields.Len(); i++ {
+				r.Has(fields.Get(i))
+			}
+		}},
+		{"WhichOneof", func() {
+			r := p.ProtoReflect()
+			for i := 0; i < oneofs.Len(); i++ {
+				r.WhichOneof(oneofs.Get(i))
+			}
+		}},
+		{"Get", func() {
+			r := p.ProtoReflect()
+			for i := 0; i < fields.Len(); i++ {
+				r.Get(fields.Get(i))
+			}
+		}},
+		{"Get-and-read", func() {
+			r := p.ProtoReflect()
+			for i := 0; i < fields.Len(); i++ {
+				touchValue(fields.Get(i), r.Get(fields.Get(i)))
+			}
+		}},
+		{"Get-nested", func() { si.fromPR(mi, p.ProtoReflect()) }},
+		{"String", func() {
+			if s, ok := p.(fmt.Stringer); ok {
+				_ = s.String()
+			}
+		}},
+		{"Clone", func() { proto.Clone(p) }},
+		{"Merge-from", func() { proto.Merge(reflect.New(mi.goType).Interface().(proto.Message), p) }},
+		{"meta", func() {
+			r := p.ProtoReflect()
+			r.IsValid()
+			r.Descriptor()
+			r.Type()
+			r.GetUnknown()
+			r.Interface()
+			proto.CheckInitialized(p)
+		}},
+	}
+	if methods != nil && methods.Size != nil && methods.Marshal != nil {
+		for _, fl := range []protoiface.MarshalInputFlags{0, protoiface.MarshalDeterministic, protoiface.MarshalDeterministic | protoiface.MarshalUseCachedSize, protoiface.MarshalUseCachedSize} {
+			fl := fl
+			calls = append(calls, roCall{fmt.Sprintf("ProtoMethods.Size+Marshal(flags=%d)", fl), func() {
+				methods.Size(protoiface.SizeInput{Message: p.ProtoReflect(), Flags: fl &^ protoiface.MarshalUseCachedSize})
+				methods.Marshal(protoiface.MarshalInput{Message: p.ProtoReflect(), Flags: fl})
+			}})
+		}
+	}
+	if valid && !hasF32SNaN(si, mi, v) {
+		// the reference message holding the same value as the other operand: Equal(ref, x) ranges over ref and Gets from x
+		d := si.toDyn(mi, v)
+		calls = append(calls,
+			roCall{"Equal(reference,x)", func() { proto.Equal(d, p) }},
+			roCall{"Equal(x,reference)", func() { proto.Equal(p, d) }})
+	}
+	return calls
+}
+
+func (c *codecCtx) readonly(mi *msgInfo, v *V) {
+	o, si := c.o, c.si
+	id := si.id + "." + string(mi.md.Name())
+	valid := stringsValid(si, mi, v)
+	build := func() (p, clone proto.Message) {
+		return si.toGo(mi, v).Interface().(proto.Message), si.toGo(mi, v).Interface().(proto.Message)
+	}
+	run := func(call roCall) {
+		defer func() {
+			if recover() != nil {
+				o.count("readonly_call_panics") // not this property's business (C04 / C09 judge panics); the struct is compared all the same
+			}
+		}()
+		call.f()
+	}
+	// first pass: the whole call sequence between two snapshots
+	p, clone := build()
+	before, beforeClone := c.snapc.snapshot(p), c.snapc.snapshot(clone)
+	calls := c.readonlyCalls(mi, v, p, clone, valid)
+	for _, call := range calls {
+		run(call)
+	}
+	o.count("readonly_call_sequences")
+	if c.snapc.snapshot(p) == before && c.snapc.snapshot(clone) == beforeClone {
+		o.propOK += len(calls) // every call of the sequence left both structs as they were
+		return
+	}
+	// something changed: every call on its own, each on freshly built messages (a call that completes a nil into an empty
+	// value hides the same defect in the calls after it), to name the calls
+	val := v.String()
+	if len(val) > 2000 {
+		val = val[:2000] + "..."
+	}
+	named := false
+	for j := range calls {
+		p, clone := build()
+		before, beforeClone := c.snapc.snapshot(p), c.snapc.snapshot(clone)
+		call := c.readonlyCalls(mi, v, p, clone, valid)[j]
+		run(call)
+		after, afterClone := c.snapc.snapshot(p), c.snapc.snapshot(clone)
+		what := ""
+		switch {
+		case after != before:
+			what = fmt.Sprintf("the read-only call %s changed the Go struct of the %s it was made on: %s; value %s", call.name, id, snapDiff(before, after), val)
+		case afterClone != beforeClone:
+			what = fmt.Sprintf("the read-only call %s changed the Go struct of its other operand (a separately built %s of the same value): %s; value %s", call.name, id, snapDiff(beforeClone, afterClone), val)
+		}
+		o.withKey("readonly/"+id+"/"+call.name).prop("C07", what == "", what)
+		named = named || what != ""
+	}
+	if !named {
+		o.withKey("readonly/"+id+"/sequence").prop("C07", false, "the sequence of read-only calls changed the Go struct of a "+id+", no single call on a fresh message of the same value does; value "+val)
+	}
+}
+
+// ---- hand-built states: what Unmarshal / Set / Mutable never produce but a Go program can write down -----------------
+func (c *codecCtx) handBuilt(mi *msgInfo, g *vgen) []*V {
+	si := c.si
+	var out []*V
+	all1, all2 := si.emptyV(mi), si.emptyV(mi)
+	set := func(i int, states ...*V) {
+		for _, st := range states {
+			v := si.emptyV(mi)
+			v.L[i] = st
+			out = append(out, v)
+		}
+		if len(states) > 0 {
+			all1.L[i] = states[0]
+			all2.L[i] = states[len(states)-1]
+		}
+	}
+	oneofDone1 := map[int]bool{}
+	for i, fi := range mi.fields {
+		fd := fi.fd
+		isMsg := fd.Kind() == protoreflect.MessageKind
+		var empty *V
+		if isMsg && !fd.IsMap() {
+			empty = si.emptyV(si.byName[fd.Message().FullName()])
+		}
+		switch {
+		case fd.IsMap():
+			vfd := fd.MapValue()
+			k0, k1 := smallKey(fd.MapKey(), 0), smallKey(fd.MapKey(), 1)
+			switch vfd.Kind() {
+			case protoreflect.MessageKind:
+				e := si.emptyV(si.byName[vfd.Message().FullName()])
+				m2 := &V{K: 'p', L: []*V{k0, vNil, k1, e}}
+				sortMap(m2)
+				set(i, &V{K: 'p'}, &V{K: 'p', L: []*V{k0, vNil}}, m2)
+			case protoreflect.BytesKind:
+				m2 := &V{K: 'p', L: []*V{k0, vNil, k1, vBytes(nil)}}
+				sortMap(m2)
+				set(i, &V{K: 'p'}, m2)
+			default:
+				set(i, &V{K: 'p'})
+			}
+		case fd.IsList():
+			switch {
+			case isMsg:
+				set(i, &V{K: 'l'}, &V{K: 'l', L: []*V{vNil}}, &V{K: 'l', L: []*V{vNil, empty, vNil}})
+			case fd.Kind() == protoreflect.BytesKind:
+				set(i, &V{K: 'l'}, &V{K: 'l', L: []*V{vNil, vBytes(nil), vNil}})
+			default:
+				set(i, &V{K: 'l'})
+			}
+		case fi.oneofIdx >= 0:
+			var states []*V
+			switch {
+			case isMsg:
+				states = []*V{{K: 's', P: vNil}, {K: 's', P: empty}}
+				c.o.count("handbuilt_oneof_wrapper_holding_nil_message")
+			case fd.Kind() == protoreflect.BytesKind:
+				states = []*V{{K: 's', P: vNil}, {K: 's', P: vBytes(nil)}}
+			default:
+				continue
+			}
+			for _, st := range states {
+				v := si.emptyV(mi)
+				v.L[i] = st
+				out = append(out, v)
+			}
+			// the combined values: the first message-kind member of each oneof in one, the last in the other
+			if isMsg {
+				if !oneofDone1[fi.oneofIdx] {
+					oneofDone1[fi.oneofIdx] = true
+					all1.L[i] = states[0]
+				}
+				for j, fj := range mi.fields {
+					if fj.oneofIdx == fi.oneofIdx {
+						all2.L[j] = vNil
+					}
+				}
+				all2.L[i] = states[0]
+			}
+		case isMsg:
+			set(i, empty)
+		case fd.Kind() == protoreflect.BytesKind && !fd.HasPresence():
+			set(i, vBytes(nil))
+		}
+	}
+	// a oneof left without a message-kind member in the combined values keeps whatever all1 holds (nothing): fine
+	out = append(out, all1, all2)
+	return out
+}
+
+// ---- width boundaries --------------------------------------------------------------------------------------------
+// big: is the next candidate at the 2->3 byte boundary (16383 / 16384 / 16385) run? thorough: all; quick: every 29th
+func (c *codecCtx) big() bool {
+	c.bigSeq++
+	return c.cfg.thorough() || c.bigSeq%29 == 1
+}
+
+func (c *codecCtx) widthSweep(mi *msgInfo, g *vgen) {
+	si := c.si
+	run := func(i int, st *V, class string) {
+		if st == nil {
+			c.o.count("width_not_constructible")
+			return
+		}
+		v := si.emptyV(mi)
+		v.L[i] = st
+		c.one(mi, v, class)
+	}
+	renamedCopy := si.id == "vtest3" || si.id == "vtestpb"
+	// self-checks of the builders against protobuf-go's own size arithmetic: a value that misses its target length is counted
+	// (width_inexact must stay 0), it is still a legitimate value and is run
+	msgOfSize := func(cmi *msgInfo, T int) *V {
+		ch := g.msgOfSize(cmi, T)
+		if ch != nil && proto.Size(si.toDyn(cmi, ch)) != T {
+			c.o.count("width_inexact")
+		}
+		return ch
+	}
+	listOfPayload := func(fd protoreflect.FieldDescriptor, w, T int) *V {
+		lv := listOfPayload(fd, w, T)
+		if lv != nil {
+			n := 0
+			for _, e := range lv.L {
+				n += scalarWireLen(fd, e)
+			}
+			if n != T {
+				c.o.count("width_inexact")
+			}
+		}
+		return lv
+	}
+	for i, fi := range mi.fields {
+		fd := fi.fd
+		wrap := func(e *V) *V { // the state of field i holding element e once
+			switch {
+			case fd.IsList():
+				return &V{K: 'l', L: []*V{e}}
+			case fi.oneofIdx >= 0:
+				return &V{K: 's', P: e}
+			}
+			return e
+		}
+		switch {
+		case fd.IsMap():
+			kfd, vfd := fd.MapKey(), fd.MapValue()
+			k0 := smallKey(kfd, 0)
+			entry := func(k, val *V) *V {
+				if k == nil || val == nil {
+					return nil
+				}
+				return &V{K: 'p', L: []*V{k, val}}
+			}
+			// many entries (sorting; one length prefix per entry)
+			if kfd.Kind() != protoreflect.BoolKind {
+				for _, n := range []int{128, 131} {
+					mv := &V{K: 'p'}
+					for j := 0; j < n; j++ {
+						val := g.smallValue(vfd, j)
+						if vfd.Kind() == protoreflect.MessageKind && j%5 == 4 {
+							val = vNil
+						}
+						mv.L = append(mv.L, smallKey(kfd, j), val)
+					}
+					sortMap(mv)
+					run(i, mv, "width-map-entries")
+					if !c.cfg.thorough() {
+						break
+					}
+				}
+			}
+			for _, T := range []int{127, 128, 16383, 16384} {
+				bigT := T > 1000
+				if bigT && !c.big() {
+					continue
+				}
+				cls := "width-map"
+				if bigT {
+					cls = "width-map-big"
+				}
+				if kfd.Kind() == protoreflect.StringKind {
+					run(i, entry(padBytes(kfd, T), g.smallValue(vfd, 0)), cls) // key payload T
+					if L := payloadFor(T-keyRecLenOfSmall(vfd, g), 1); L >= 0 {
+						run(i, entry(padBytes(kfd, L), g.smallValue(vfd, 0)), cls) // entry T (small value)
+					}
+				}
+				switch vfd.Kind() {
+				case protoreflect.StringKind, protoreflect.BytesKind:
+					run(i, entry(k0, padBytes(vfd, T)), cls) // value payload T
+					if L := payloadFor(T-keyRecLen(kfd, k0), 1); L >= 0 {
+						run(i, entry(k0, padBytes(vfd, L)), cls) // entry T
+					}
+				case protoreflect.MessageKind:
+					cmi := si.byName[vfd.Message().FullName()]
+					run(i, entry(k0, msgOfSize(cmi, T)), cls) // value message T
+					if L := payloadFor(T-keyRecLen(kfd, k0), 1); L >= 0 {
+						run(i, entry(k0, msgOfSize(cmi, L)), cls) // entry T
+					}
+				}
+			}
+		case fd.Kind() == protoreflect.MessageKind:
+			cmi := si.byName[fd.Message().FullName()]
+			for _, T := range []int{127, 128, 16383, 16384} {
+				if T > 1000 && !c.big() {
+					continue
+				}
+				cls := "width-child"
+				if T > 1000 {
+					cls = "width-child-big"
+				}
+				ch := msgOfSize(cmi, T)
+				if ch == nil {
+					c.o.count("width_not_constructible")
+					continue
+				}
+				run(i, wrap(ch), cls)
+				if fd.IsList() && T == 128 {
+					run(i, &V{K: 'l', L: []*V{msgOfSize(cmi, 127), ch, si.emptyV(cmi), ch}}, cls)
+				}
+			}
+			if fd.IsList() {
+				lv := &V{K: 'l'}
+				for j := 0; j < 130; j++ {
+					lv.L = append(lv.L, si.emptyV(cmi))
+				}
+				run(i, lv, "width-count")
+			}
+		case fd.Kind() == protoreflect.StringKind || fd.Kind() == protoreflect.BytesKind:
+			for _, T := range []int{127, 128, 129, 16383, 16384} {
+				if T > 1000 && !c.big() {
+					continue
+				}
+				cls := "width-str"
+				if T > 1000 {
+					cls = "width-str-big"
+				}
+				run(i, wrap(padBytes(fd, T)), cls)
+				if fd.IsList() && T == 128 {
+					run(i, &V{K: 'l', L: []*V{padBytes(fd, 127), padBytes(fd, 128), padBytes(fd, 0), padBytes(fd, 1), padBytes(fd, 129)}}, cls)
+				}
+			}
+			if fd.IsList() {
+				lv := &V{K: 'l'}
+				for j := 0; j < 130; j++ {
+					lv.L = append(lv.L, g.smallValue(fd, j))
+				}
+				run(i, lv, "width-count")
+			}
+		case fd.IsList():
+			// repeated scalar, packed or not: element counts and packed payload lengths around the prefix-width boundaries,
+			// for every element width of the kind
+			cls := "width-unpacked"
+			if fd.IsPacked() {
+				cls = "width-packed"
+			}
+			ws := elemWidths(fd)
+			for _, n := range []int{127, 128, 129} {
+				run(i, listOfCount(fd, ws[0], n), cls) // narrowest elements: count n (1-byte elements: payload n too)
+			}
+			quick := !c.cfg.thorough()
+			for k, w := range ws {
+				widest := k == len(ws)-1
+				if w == 1 {
+					continue
+				}
+				if fw := fixedWidth(fd); fw > 0 {
+					ns := []int{128/fw - 1, 128 / fw, 128/fw + 1} // payload 124/128/132, 120/128/136
+					if quick {
+						ns = ns[:2]
+					}
+					for _, n := range ns {
+						run(i, listOfCount(fd, fw, n), cls)
+					}
+					continue
+				}
+				// quick: the widest elements (payload 127, 128) and the 2-byte ones (payload 128; not in the renamed copies)
+				if quick && !widest && (renamedCopy || w != 2) {
+					continue
+				}
+				Ts := []int{127, 128, 129}
+				if quick && widest {
+					Ts = Ts[:2]
+				} else if quick {
+					Ts = Ts[1:2]
+				}
+				for _, T := range Ts {
+					run(i, listOfPayload(fd, w, T), cls) // payload exactly T, made of w-byte elements (+ 1-byte fillers)
+				}
+				if widest && !quick {
+					run(i, listOfCount(fd, w, 128), cls) // 128 widest elements
+				}
+			}
+			for k, w := range ws {
+				var cands []*V
+				if fw := fixedWidth(fd); fw > 0 {
+					for _, n := range []int{16384/fw - 1, 16384 / fw, 16384/fw + 1, 16383, 16384, 16385} {
+						cands = append(cands, listOfCount(fd, fw, n))
+					}
+				} else if w == 1 {
+					for _, n := range []int{16383, 16384, 16385} {
+						cands = append(cands, listOfCount(fd, 1, n))
+					}
+				} else if k == 1 || k == len(ws)-1 {
+					for _, T := range []int{16383, 16384} {
+						cands = append(cands, listOfPayload(fd, w, T))
+					}
+				}
+				for _, cand := range cands {
+					if c.big() {
+						run(i, cand, cls+"-big")
+					}
+				}
+			}
+		}
+	}
+}
+
+// keyRecLenOfSmall: bytes of the value record of a map entry holding smallValue(vfd, 0) (tag of field 2 included)
+func keyRecLenOfSmall(vfd protoreflect.FieldDescriptor, g *vgen) int {
+	val := g.smallValue(vfd, 0)
+	switch vfd.Kind() {
+	case protoreflect.MessageKind:
+		return 2 // tag, zero length
+	case protoreflect.StringKind, protoreflect.BytesKind:
+		return 1 + protowire.SizeVarint(uint64(len(val.B))) + len(val.B)
+	}
+	return 1 + scalarWireLen(vfd, val)
 }
